@@ -1247,7 +1247,122 @@ def _e2e_family(rng, tier, programs, budget_s, max_obs):
 
 
 # =============================================================================================
+# =============================================================================================
+# family 4: flows that START with sliding logic (if / else / set before the first user step), many histories on ONE loaded
+# configuration in several orders, against freshly loaded configurations
+# =============================================================================================
+_LEAD_PROGRAMS = [
+    """
+define flow support
+  if $tier == "premium"
+    user ask for help
+    bot offer priority support
+  else
+    user ask for help
+    bot offer standard support
+""",
+    """
+define flow support
+  if $tier == "premium"
+    $queue = "fast"
+  else
+    $queue = "slow"
+  user ask for help
+  if $queue == "fast"
+    bot offer priority support
+  else
+    bot offer standard support
+""",
+    """
+define flow support
+  if $tier == "premium"
+    user ask for help
+    bot offer priority support
+  else if $tier == "blocked"
+    user ask for help
+    bot refuse
+  else
+    user ask for help
+    bot offer standard support
+
+define flow other
+  user say bye
+  bot say bye
+""",
+    """
+define flow support
+  while $skip
+    $skip = False
+  if not $known
+    user ask for help
+    bot ask for name
+  else
+    user ask for help
+    bot offer standard support
+""",
+]
+
+
+def _leading_logic_family(rng, tier):
+    import itertools
+    from nemoguardrails.colang.v1_0.runtime.flows import compute_next_steps
+    load = _make_loader()
+    fails = []
+    n = 0
+    seen = set()
+    contexts = [{}, {"tier": "premium"}, {"tier": "regular"}, {"tier": "blocked"}, {"known": True}, {"skip": True, "known": True}, {"skip": True}]
+
+    def hist(ctx, intent):
+        h = []
+        if ctx:
+            h.append(_ev("ContextUpdate", data=dict(ctx)))
+        h.append(_ev("UserIntent", intent=intent))
+        return h
+
+    for src in _LEAD_PROGRAMS:
+        try:
+            flow_configs, config = load(src)
+        except Exception as ex:
+            fails.append(dict(kind="post", function="compute_next_steps [flows starting with sliding logic]", file=FLOWS, property_id="C14",
+                              clause="the program loads", inputs=_src_str(src), outcome="raised %s: %s" % (type(ex).__name__, str(ex)[:200])))
+            continue
+        histories = [hist(c, "ask for help") for c in contexts]
+        orders = [list(range(len(histories))), list(reversed(range(len(histories))))]
+        for _ in range(4 if tier == "thorough" else 2):
+            o = list(range(len(histories)))
+            rng.shuffle(o)
+            orders.append(o)
+        for order in orders:
+            for i in order:
+                h = histories[i]
+                n += 1
+                seen.add((src, tuple(order), i))
+                try:
+                    shared = _norm(compute_next_steps(list(h), flow_configs, rails_config=config, processing_log=[]))
+                    fresh = _norm(compute_next_steps(list(h), _fresh_flow_configs(config), rails_config=config, processing_log=[]))
+                except Exception as ex:
+                    shared, fresh = "raised %s: %s" % (type(ex).__name__, str(ex)[:120]), None
+                if shared != fresh and len(fails) < 4:
+                    fails.append(dict(kind="post", function="compute_next_steps [flows starting with sliding logic]", file=FLOWS, property_id="C14",
+                                      clause="the decision is a function of the history alone: the same history decided on a configuration "
+                                             "object that has served other histories before and on a freshly loaded one",
+                                      inputs="flows: %s ; history %s (position %d of the order %r on the shared objects)"
+                                             % (_src_str(src), _hist_str(h), order.index(i), order),
+                                      outcome="shared objects decide %r, fresh objects decide %r" % (shared, fresh)))
+    yield dict(function="compute_next_steps [flows starting with sliding logic]", evaluations=n, distinct=len(seen), failures=len(fails),
+               failing=fails, bound="%d programs whose flow starts with if / else-if / else, assignments or a while loop before the first user "
+                                    "step x %d context histories x >= 4 orders on one loaded configuration, each compared with a freshly "
+                                    "loaded configuration" % (len(_LEAD_PROGRAMS), len(contexts)))
+
+
 def native_checks(rng, tier):
+    for rec in _leading_logic_family(rng, tier):
+        yield rec
+    for rec in _native_checks_main(rng, tier):
+        yield rec
+
+
+def _native_checks_main(rng, tier):
     import random
     thorough = tier == "thorough"
     # family 1: the fixed, parameterised shapes named in the property's scope
